@@ -5,6 +5,7 @@ import (
 	"go/constant"
 	"go/token"
 	"go/types"
+	"sort"
 	"strings"
 
 	"golang.org/x/tools/go/ssa"
@@ -20,8 +21,10 @@ func (c *Ctx) term(v ssa.Value, depth int) string {
 	if c.termMemo == nil {
 		c.termMemo = map[ssa.Value]string{}
 	}
-	if s, ok := c.termMemo[v]; ok {
-		return s
+	if len(c.termSubst) == 0 {
+		if s, ok := c.termMemo[v]; ok {
+			return s
+		}
 	}
 	if c.termBusy == nil {
 		c.termBusy = map[ssa.Value]bool{}
@@ -35,7 +38,7 @@ func (c *Ctx) term(v ssa.Value, depth int) string {
 	if len(s) > 6000 {
 		s = s[:6000] + "...<truncated>"
 	}
-	if depth <= 12 && !strings.Contains(s, "<loop>") {
+	if depth <= 12 && !strings.Contains(s, "<loop>") && len(c.termSubst) == 0 {
 		c.termMemo[v] = s
 	}
 	return s
@@ -44,6 +47,11 @@ func (c *Ctx) term(v ssa.Value, depth int) string {
 func (c *Ctx) term1(v ssa.Value, depth int) string {
 	switch x := v.(type) {
 	case *ssa.Parameter:
+		for i := len(c.termSubst) - 1; i >= 0; i-- {
+			if t, ok := c.termSubst[i][x]; ok {
+				return t
+			}
+		}
 		for i, p := range x.Parent().Params {
 			if p == x {
 				return fmt.Sprintf("P%d", i)
@@ -83,6 +91,14 @@ func (c *Ctx) term1(v ssa.Value, depth int) string {
 			name = "dyn"
 		}
 		args = append(args, cc.Args...)
+		// inlining mode: an unexported helper of the operator packages stands for what it returns
+		if c.termInline && !cc.IsInvoke() {
+			if sc := cc.StaticCallee(); sc != nil && isLibFn(sc) && len(sc.Blocks) > 0 && depth < 16 && len(c.termSubst) < 3 && inlineableHelper(sc) {
+				if t, ok := c.inlineTerm(sc, cc.Args, depth); ok {
+					return t
+				}
+			}
+		}
 		// typed constants built by a library helper (GetValueAsTensorType(1.0, dtype)) render as k(<const>)
 		if sc := cc.StaticCallee(); sc != nil && isLibFn(sc) && len(cc.Args) >= 1 {
 			if k, ok := cc.Args[0].(*ssa.Const); ok && k.Value != nil && (k.Value.Kind() == constant.Float || k.Value.Kind() == constant.Int) {
@@ -897,8 +913,16 @@ func (c *Ctx) checkPRelu(oi *opInfo, key string) {
 			}
 		}
 		if w := c.preluKernelShape(f); w != "" && bad == "" {
-			bad = w
-			site = c.pos(f.Pos())
+			// the structural pattern is one spelling; where it is not recognised the integer instance is decided by table
+			if tw, decided := c.preluKernelTable(f); decided && tw == "" {
+				c.counts["R7.prelu_kernels_by_table"]++
+			} else {
+				bad = w
+				if decided {
+					bad = tw
+				}
+				site = c.pos(f.Pos())
+			}
 		}
 	}
 	if nK == 0 && bad == "" {
@@ -1048,4 +1072,122 @@ func ruleR18(c *Ctx, prop string) {
 	}
 	c.add(Obligation{Rule: "R18", Key: "R18:ctl:bad:BadSelectByMul", Status: st, Control: true, Why: "control: x * (x > 0)"})
 	c.wantControls = append(c.wantControls, "R18:ctl:bad:BadSelectByMul")
+}
+
+// preluKernelTable walks an integer instance of the element kernel over small operands: out[i] = x[i] for
+// x[i] >= 0 and slope[i]*x[i] otherwise, at every position (slopes are pairwise different, so a cyclic or shifted
+// slope shows). decided=false: not an integer instance, or the walk could not follow it.
+func (c *Ctx) preluKernelTable(f *ssa.Function) (string, bool) {
+	if f.Signature.Results().Len() != 2 {
+		return "", false
+	}
+	st, ok := f.Signature.Results().At(0).Type().Underlying().(*types.Slice)
+	if !ok {
+		return "", false
+	}
+	bt, ok := st.Elem().Underlying().(*types.Basic)
+	if !ok || bt.Info()&types.IsInteger == 0 || bt.Info()&types.IsUnsigned != 0 {
+		// the float instances share the generic body; they are judged through an integer instance of the same
+		// generic function
+		if orig := f.Origin(); orig != nil {
+			for _, g := range c.libFns {
+				if g != f && g.Origin() == orig {
+					if s2, ok := g.Signature.Results().At(0).Type().Underlying().(*types.Slice); ok {
+						if b2, ok := s2.Elem().Underlying().(*types.Basic); ok && b2.Info()&types.IsInteger != 0 && b2.Info()&types.IsUnsigned == 0 {
+							return c.preluKernelTable(g)
+						}
+					}
+				}
+			}
+		}
+		return "", false
+	}
+	for _, cell := range [][2][]int64{
+		{{-3, -1, 0, 2, 5}, {2, 3, 4, 5, 6}},
+		{{4}, {7}},
+		{{-4}, {7}},
+		{{-1, -1, -1}, {2, 3, 5}},
+	} {
+		heap := newHeap()
+		mk := func(l []int64) pval {
+			pl := make([]pval, len(l))
+			for i, v := range l {
+				pl[i] = pval{k: pInt, i: v}
+			}
+			return heap.alloc(pl)
+		}
+		p := &pinterp{c: c, budget: 100000, objects: true, listsAreSlicesOf: st.Elem()}
+		res, h := p.run(f, []pval{mk(cell[0]), mk(cell[1])}, 0, heap)
+		if h == nil || len(res) != 2 || res[1].k != pNil || res[0].k != pList || h.lists[res[0].i] == nil {
+			return "", false
+		}
+		got := h.lists[res[0].i]
+		if len(got) != len(cell[0]) {
+			return fmt.Sprintf("for x = %s the kernel returns %d elements", fmtInts(cell[0]), len(got)), true
+		}
+		for i, x := range cell[0] {
+			want := x
+			if x < 0 {
+				want = cell[1][i] * x
+			}
+			if got[i].k != pInt {
+				return "", false
+			}
+			if got[i].i != want {
+				return fmt.Sprintf("for x = %s and slope = %s element %d of the result is %d, PRelu prescribes %d (x if x >= 0, slope*x otherwise, slope taken at the element's own position)", fmtInts(cell[0]), fmtInts(cell[1]), i, got[i].i, want), true
+			}
+		}
+	}
+	return "", true
+}
+
+// inlineableHelper: unexported functions and methods of the root and operator packages (helpers a refactoring
+// introduces); the exported API of package ops is the vocabulary the expectations are written in.
+func inlineableHelper(f *ssa.Function) bool {
+	if f.Object() == nil || f.Object().Exported() {
+		return false
+	}
+	p := fnPkgPath(f)
+	return p == pkgOpset13 || p == modPath
+}
+
+// inlineTerm renders what f returns on success, with f's parameters replaced by the terms of the arguments:
+// one success return gives that term, several give phi(...) of them in a canonical order.
+func (c *Ctx) inlineTerm(f *ssa.Function, args []ssa.Value, depth int) (string, bool) {
+	ei := errResultIndex(f.Signature)
+	var rets []*ssa.Return
+	for _, r := range returnsOf(f) {
+		if ei >= 0 && !isNilConst(r.Results[ei]) && !c.errIsCallErr(r.Results[ei]) {
+			continue
+		}
+		if ei >= 0 && len(r.Results) > 0 && isNilConst(r.Results[0]) && ei != 0 {
+			continue // (nil, err) forms
+		}
+		rets = append(rets, r)
+	}
+	if len(rets) == 0 || len(rets) > 3 {
+		return "", false
+	}
+	subst := map[*ssa.Parameter]string{}
+	for i, p := range f.Params {
+		if i < len(args) {
+			subst[p] = c.term(args[i], depth+1)
+		}
+	}
+	c.termSubst = append(c.termSubst, subst)
+	defer func() { c.termSubst = c.termSubst[:len(c.termSubst)-1] }()
+	var parts []string
+	for _, r := range rets {
+		if len(r.Results) == 0 {
+			return "", false
+		}
+		parts = append(parts, c.term(r.Results[0], depth+1))
+	}
+	if len(parts) == 1 {
+		return parts[0], true
+	}
+	sort.Strings(parts)
+	// shorter alternative first: phi(x|f(x)) is how an if without else renders
+	sort.SliceStable(parts, func(i, j int) bool { return len(parts[i]) < len(parts[j]) })
+	return "phi(" + strings.Join(parts, "|") + ")", true
 }
